@@ -792,6 +792,8 @@ func runGen(class string, seed int64, n int, w *bufio.Writer) {
 		g.genWFRD(n)
 	case "vbframe":
 		g.genVBFrame(n)
+	case "proplen":
+		g.genPropLen(n)
 	case "first":
 		g.genFirst(n)
 	case "pool":
